@@ -12,7 +12,7 @@ output:
   * a panic is observed exactly when the variable counts differ or some flip variable is `≥ num_vars`.
 -/
 namespace B.Drive.C04
-open B B.Drive
+open B B.Lim B.Drive
 
 def maxTT : Nat := 12
 
